@@ -120,6 +120,65 @@ def T_string_len(n):
     return "'" + "x" * n + "'.length", n
 
 
+# ---- large literals and tokens: n digits / characters in ONE token
+def T_lit_int_digits(n):
+    return "1" + "0" * (n - 1) + " === 1e%d" % (n - 1), True
+
+
+def T_lit_nines(n):
+    return "9" * n + " >= 9e%d" % (n - 1), True
+
+
+def T_lit_frac_digits(n):
+    return "0." + "0" * (n - 1) + "1 === 1e-%d" % n, True
+
+
+def T_lit_leading_zero_frac(n):
+    return "1." + "0" * n + " === 1", True
+
+
+def T_lit_hex_digits(n):
+    return "0x" + "f" * n + " === Math.pow(2, %d) - %d" % (4 * n, 1 if n < 14 else 0), True
+
+
+def T_lit_bin_digits(n):
+    return "0b" + "1" * n + " === Math.pow(2, %d) - %d" % (n, 1 if n < 54 else 0), True
+
+
+def T_lit_oct_digits(n):
+    return "0o" + "7" * n + " === Math.pow(2, %d) - %d" % (3 * n, 1 if n < 18 else 0), True
+
+
+def T_lit_exponent_zeros(n):
+    return "1e" + "0" * (n - 1) + "5 === 100000", True
+
+
+def T_lit_identifier(n):
+    nm = "a" * n
+    return "var %s = 5; %s" % (nm, nm), 5
+
+
+def T_lit_property_name(n):
+    nm = "k" * n
+    return "var o = {%s: 3}; o.%s + o['%s']" % (nm, nm, nm), 6
+
+
+def T_lit_comment(n):
+    return "/*" + "x" * n + "*/ 7 //" + "y" * n, 7
+
+
+def T_lit_string_escapes(n):
+    return "'" + "\\n" * n + "'.length", n
+
+
+def T_lit_regex_source(n):
+    return "/" + "a" * n + "/.source.length", n
+
+
+def T_lit_whitespace(n):
+    return " " * n + "4" + "\n" * n + "+ 4", 8
+
+
 def T_and_chain(n):
     return " && ".join(["1"] * n) + " && 7", 7
 
@@ -363,6 +422,8 @@ def main(ctx):
             ns += [6552, 6553, 6554, 6560, 7000] if name not in ("and_chain", "or_chain", "ternary_chain") else [9362, 9363, 10922, 10923, 13107, 16384]
             if name.startswith("bigfn_via_"):
                 ns += [3270, 3275, 3276, 3277, 3280, 3300, 4000, 6000]     # around bytecode offset 32768
+        if name.startswith("lit_"):
+            ns += [15, 16, 17, 18, 19, 20, 21, 22, 25, 26, 53, 54, 308, 309, 310, 323, 324, 325, 400, 1074, 1075, 4299, 4300, 4301, 5000, 10000, 70000]   # double / host integer-conversion boundaries
         ns += [rng.randint(2, 300), rng.randint(300, 5000)]
         if not ctx.quick:
             ns += [rng.randint(5000, 80000) for _ in range(3)]
